@@ -99,8 +99,10 @@ fn radix_text(tape: &mut Tape) -> (String, u128) {
         }
         _ => (tape.u64() as u128) << tape.below(2),
     };
-    let (prefix, digits) = match tape.below(4) {
+    let (prefix, digits) = match tape.below(5) {
         0 => ("", format!("{magnitude}")),
+        // a decimal literal with leading zeros is still decimal
+        4 => ("", format!("{}{magnitude}", ["0", "00", "0_"][tape.below(3)])),
         1 => ("0b", format!("{magnitude:b}")),
         2 => ("0o", format!("{magnitude:o}")),
         _ => ("0x", if tape.bool() { format!("{magnitude:x}") } else { format!("{magnitude:X}") }),
@@ -197,7 +199,19 @@ fn check_value(model: &Json, stats: &mut Stats) -> Verdict {
             o => return fail(format!("C20:program:{}", o.panic_sig().unwrap_or("outcome".into())), format!("the program `{printed}`: {}", o.short())),
         }
     } else {
-        stats.label("contains MIN_INT (program route skipped)");
+        // MIN_INT's magnitude is not an int: the text used as a program is rejected as too big, or it
+        // evaluates to the value all the same - never to another value
+        stats.label("contains MIN_INT (as a program: rejected or the same value)");
+        stats.eval();
+        match run::run_text(&printed, false) {
+            Outcome::Value(p) => {
+                if lit::from_var(&p).as_ref() != Some(model) {
+                    return fail("C20:program:content", format!("the program `{printed}` evaluates to {}", ty::show(&p)));
+                }
+            }
+            Outcome::Rejected(kind) if kind == "IntegerOverflow" => {}
+            o => return fail(format!("C20:program:{}", o.panic_sig().unwrap_or("outcome".into())), format!("the program `{printed}`: {}", o.short())),
+        }
     }
     Verdict::Pass
 }
@@ -327,7 +341,65 @@ fn check_int_literal(case: &Json, stats: &mut Stats) -> Verdict {
         }
         o => return fail("C20:int-literal:program", format!("the program `{text}`: {}", o.short())),
     }
+    // the literal inside tuples and arrays, as a program and as a value literal: the same value at its
+    // place, or the whole text is rejected as too big (never a shorter tuple, never another element)
+    for (wrapped, at) in [(format!("({text}, 1, 2)"), vec![0usize]), (format!("[{text}, 1]"), vec![0]), (format!("(1, ({text}, 2))"), vec![1, 0]), (format!("[[1], [{text}]]"), vec![1, 0]), (format!("(1, 2, {text})"), vec![2])] {
+        for as_program in [true, false] {
+            stats.eval();
+            let o = if as_program {
+                run::run_text(&wrapped, false)
+            } else {
+                match run::guarded(|| Variable::from_str(&wrapped)) {
+                    Ok(Ok(v)) => Outcome::Value(v),
+                    Ok(Err(e)) => Outcome::Rejected(run::error_kind(&e)),
+                    Err(c) => run::caught_to_outcome("from_str", c),
+                }
+            };
+            let how = if as_program { "the program" } else { "the value literal" };
+            match &o {
+                Outcome::Value(v) => {
+                    let mut cur = lit::from_var(v);
+                    let shape_ok = match (&cur, wrapped.as_str()) {
+                        (Some(m), w) if w.starts_with('(') => lit_len(m) == Some(wrapped.matches(',').count() + 1 - if at.len() == 2 { 1 } else { 0 }),
+                        _ => true,
+                    };
+                    for k in &at {
+                        cur = cur.and_then(|m| lit_item(&m, *k));
+                    }
+                    if !fits || !shape_ok || cur != Some(json!(magnitude as i64)) {
+                        return fail("C20:int-literal:nested-value", format!("{how} `{wrapped}` = {}, the literal denotes {magnitude}", ty::show(v)));
+                    }
+                }
+                Outcome::Rejected(kind) => {
+                    if fits {
+                        return fail("C20:int-literal:nested-rejected", format!("{how} `{wrapped}` is rejected ({kind}) although {magnitude} is an int"));
+                    }
+                    if kind != "IntegerOverflow" {
+                        return fail("C20:int-literal:nested-error-kind", format!("{how} `{wrapped}`: {kind} instead of the too-big error"));
+                    }
+                }
+                o => return fail("C20:int-literal:nested", format!("{how} `{wrapped}`: {}", o.short())),
+            }
+        }
+    }
     Verdict::Pass
+}
+
+/// the k-th item of an array / tuple model
+fn lit_item(m: &Json, k: usize) -> Option<Json> {
+    match m {
+        Json::Array(xs) => xs.get(k).cloned(),
+        Json::Object(o) => o.get("t").and_then(|t| t.as_array()).and_then(|xs| xs.get(k).cloned()),
+        _ => None,
+    }
+}
+
+fn lit_len(m: &Json) -> Option<usize> {
+    match m {
+        Json::Array(xs) => Some(xs.len()),
+        Json::Object(o) => o.get("t").and_then(|t| t.as_array()).map(|xs| xs.len()),
+        _ => None,
+    }
 }
 
 pub fn run(session: &Session) -> i32 {
